@@ -128,6 +128,11 @@ def cases(chk):
             yield "history", {"events": h, "opt": opt}
     for _ in range(chk.scale(150, 3000)):
         yield "history", {"events": [r.choice(KINDS) for _ in range(r.randint(4, 18))], "opt": {"reconnect": r.choice([0, 1]), "passive": r.choice([0, 1])}}
+    # "transport state is reset so that a later connect starts a fresh login": the bytes of every login attempt, with the real
+    # segments and noise layers between the network layer and the authentication layer
+    for downs in (["peer-close"], ["disconnect-request"], ["peer-close", "disconnect-request"], ["disconnect-request", "peer-close", "peer-close"]):
+        for edge in (False, True):
+            yield "relogin", {"downs": downs, "edge": edge}
     errs = ["streamError:conflict", "streamError:ack", "streamError:xmlNotWellFormed", "streamError:unknown"]
     for _ in range(chk.scale(350, 6000)):
         # guided walk: a coarse guess of the connection state steers the choice so that histories get deep
@@ -159,7 +164,89 @@ def cases(chk):
                 yield "exhaustive", {"events": list(combo), "opt": {"reconnect": 1, "passive": 0}}
 
 
+def run_relogin(chk, case):
+    """connect / login attempt / connection goes down / connect …: every attempt must put the same fresh login on the wire
+    (routing header if configured, raw prologue, then the client hello as ONE length-prefixed segment)"""
+    import time
+    import uuid
+    from consonance.structs.keypair import KeyPair
+    from yowsup.config.v1.config import Config
+    from yowsup.layers import YowLayer, YowLayerEvent, YowParallelLayer
+    from yowsup.layers.auth import YowAuthenticationProtocolLayer
+    from yowsup.layers.coder import YowCoderLayer
+    from yowsup.layers.network import YowNetworkLayer
+    from yowsup.layers.noise.layer import YowNoiseLayer
+    from yowsup.layers.noise.layer_noise_segments import YowNoiseSegmentsLayer
+    from yowsup.profile.profile import YowProfile
+    from yowsup.stacks import YowStack
+    import yowsup.layers.network.layer as nl
+    fails = []
+    written = {}
+
+    class ByteDispatcher(FakeDispatcher):
+        def sendData(self, data):
+            if self._connected:
+                written.setdefault(self.idx, bytearray()).extend(bytes(data))
+    saved = nl.AsyncoreConnectionDispatcher
+    nl.AsyncoreConnectionDispatcher = ByteDispatcher
+    FakeDispatcher.created = []
+    FakeDispatcher.LOG = []
+    try:
+        class Top(YowLayer):
+            def receive(self, d):
+                pass
+
+            def send(self, d):
+                self.toLower(d)
+        stack = YowStack((YowNetworkLayer, YowNoiseSegmentsLayer, YowNoiseLayer, YowCoderLayer,
+                          YowParallelLayer((YowAuthenticationProtocolLayer,)), Top()), reversed=False)
+        cfg = Config(phone="4915166600001", cc=49, client_static_keypair=KeyPair.generate(), pushname="relogin",
+                     edge_routing_info=b"\x08\x02\x08\x05" if case["edge"] else None)
+        stack.setProfile(YowProfile("c16-relogin-" + uuid.uuid4().hex, cfg))
+        stack.setProp(YowNetworkLayer.PROP_ENDPOINT, ("e1.whatsapp.net", 443))
+        logins = []
+        for how in case["downs"] + ["end"]:
+            stack.broadcastEvent(YowLayerEvent(YowNetworkLayer.EVENT_STATE_CONNECT))
+            disp = FakeDispatcher.created[-1]
+            disp.handle_connect()
+            deadline = time.time() + 2.0
+            want = 4 + (4 + 3 + 4 if case["edge"] else 0) + 3 + 30
+            while time.time() < deadline and len(written.get(disp.idx, b"")) < want:
+                time.sleep(0.005)
+            logins.append(bytes(written.get(disp.idx, b"")))
+            if how == "peer-close":
+                disp.handle_close()
+            elif how == "disconnect-request":
+                stack.broadcastEvent(YowLayerEvent(YowNetworkLayer.EVENT_STATE_DISCONNECT))
+            _drain_detached(stack)
+        chk.hit("relogin:%d" % len(logins))
+        prefix = (b"ED\x00\x01" + b"\x00\x00\x04" + b"\x08\x02\x08\x05" if case["edge"] else b"") + b"WA\x04\x00"
+        for i, data in enumerate(logins):
+            ok = data.startswith(prefix) and len(data) >= len(prefix) + 3 and \
+                int.from_bytes(data[len(prefix):len(prefix) + 3], "big") == len(data) - len(prefix) - 3
+            if not ok:
+                fails.append(oracle("C16:login-not-fresh", "history connect%s: login attempt #%d does not start a fresh login on the wire: first bytes %r (attempt #1: %r)"
+                                    % ("".join(", %s, connect" % x for x in case["downs"][:i]), i + 1, data[:24], logins[0][:24])))
+                break
+    finally:
+        nl.AsyncoreConnectionDispatcher = saved
+    return fails
+
+
+def _drain_detached(stack):
+    from yowsup.stacks import YowStack
+    q = YowStack._YowStack__detachedQueue
+    while True:
+        try:
+            cb = q.get(False)
+        except Exception:
+            return
+        cb()
+
+
 def nontrivial(stream, case):
+    if stream == "relogin":
+        return (stream, tuple(case["downs"]), case["edge"])
     return (stream, tuple(case["events"]), tuple(sorted(case["opt"].items())))
 
 
@@ -205,6 +292,8 @@ def model_event(ev, allowed_d):
 
 
 def run_case(chk, stream, case):
+    if stream == "relogin":
+        return run_relogin(chk, case)
     from yowsup.layers import YowLayerEvent
     from yowsup.layers.network import YowNetworkLayer
     fails = []
@@ -395,6 +484,11 @@ def check_trace(case, executed, trace):
 
 
 def shrink(stream, case):
+    if stream == "relogin":
+        for i in range(len(case["downs"])):
+            if len(case["downs"]) > 1:
+                yield dict(case, downs=case["downs"][:i] + case["downs"][i + 1:])
+        return
     ev = case["events"]
     for i in range(len(ev)):
         if len(ev) > 1:
